@@ -256,10 +256,22 @@ def main():
                 traces_validated += g.get("grid", 0) - g.get("skipped_pre", 0)
                 for smp in g.get("samples", [])[:2]:
                     samples.append({"obligation": o.name, "concrete_in_bound_point_run_natively": smp})
-                if g.get("failures") and status == "confirmed":
-                    harness_errors.append(f"{o.name}: engine confirmed but native grid point fails: {g['failures'][0]}")
-                elif g.get("failures") and status != "violated":
-                    harness_errors.append(f"{o.name}: native grid point fails: {g['failures'][0]}")
+                for fr in (g.get("failures") or [])[:3]:
+                    pub = fr.get("public_replay")
+                    if str(fr.get("detail", "")).startswith("public replay fails although the harness passes") or "HARNESS DEFECT" in str(fr.get("detail", "")) or (pub is not None and not pub.get("reproduced")):
+                        # the harness and its independent replay disagree: the harness (encoding, stub or reference model) is wrong
+                        harness_errors.append(f"{o.name}: native grid point: harness and independent replay disagree: {fr}")
+                        continue
+                    # A concrete in-bound point fails natively (and through the independent replay when there is one): this has exactly the
+                    # status of a confirmed counterexample. The engine did not produce it (a model gap, e.g. aliasing of mutable state
+                    # across CrossHair's container proxies), which is recorded with the violation.
+                    cex = fr.get("args")
+                    h = hashlib.sha1(json.dumps([o.name, cex], sort_keys=True).encode()).hexdigest()[:12]
+                    path = os.path.join(ROOT, "replays", pid, f"{o.name}-{h}.json")
+                    json.dump({"property": pid, "obligation": o.name, "args": cex, "engine_message": "found by the native validation grid; the engine confirmed the shard (engine model gap)", "native": fr}, open(path, "w"), indent=1)
+                    violations.append((o.name, cex, path, "[native validation grid] " + str(fr.get("detail", ""))))
+                    if status == "confirmed":
+                        status = "violated"
         samples.append({"obligation": o.name, "paths_reached": sorted(cover)[:12]})
         ob_reports.append({
             "name": o.name, "engine": o.engine, "status": status, "doc": o.doc[:400],
